@@ -219,3 +219,7 @@ def run(repo: Repo, rep: Report, tier: str) -> None:
         m1 = re.fullmatch(r"abs\((.+)\[1\] - (.+)\[1\]\) <= (.+)", t1)
         ok = m0 is not None and m1 is not None and m0.group(3) == m1.group(3) and "supply_radius" in m0.group(3) and {m0.group(1), m0.group(2)} == {m1.group(1), m1.group(2)}
     rep.check(ok, "C18-R5", "coverage test is |dx| <= r and |dy| <= r", shown, tr.loc(cov[0][0]) if cov else tr.loc())
+
+    # ---------------- R6 ---------------------------------------------------------------
+    from .shared import borrow as _borrow18
+    _borrow18(repo, rep, "C12", "C12-R2", "C18-R6", "requested poles double as wire relays without joining circuits: every relay (pre-registered poles included) records the network it carries and is reused only for that network", floor=4)
